@@ -46,6 +46,21 @@ async fn snapshot(account: &LocalAccount) -> String {
         out.push(format!("{}:{}:{}:{}", s.name().replace(' ', "_"), ap.vault().flags().bits(), desc, items.join(";")));
     }
     out.sort();
+    // attachments: every external file the account's storage lists, downloaded (decrypted) through the account
+    let target = account.backend_target().await.with_account_id(account.account_id());
+    let mut atts = vec![];
+    if let Ok(files) = target.list_files().await {
+        for f in files {
+            use sha2::Digest;
+            let name = f.file_name().to_string();
+            atts.push(match account.download_file(f.vault_id(), f.secret_id(), f.file_name()).await {
+                Ok(b) => format!("{}={}", &name[..8.min(name.len())], &hex::encode(sha2::Sha256::digest(&b))[..8]),
+                Err(_) => format!("{}=unreadable", &name[..8.min(name.len())]),
+            });
+        }
+    }
+    atts.sort();
+    out.push(format!("@attachments:{}", atts.join(";")));
     out.join("|")
 }
 
@@ -99,7 +114,12 @@ pub fn run(text: &str, cases_path: &str, out: &mut impl Write) {
                         let _ = w.step(op).await;
                     }
                     let acct = w.devs[0].bridge.account.clone();
-                    let account = acct.lock().await;
+                    let mut account = acct.lock().await;
+                    // att=1: a file secret with two further attachments on the default folder
+                    if kv(&toks, "att") == Some("1") {
+                        let n = crate::c19::add_attachments(&w, &mut account).await.len();
+                        writeln!(out, "{id} !attachments created files={n}").unwrap();
+                    }
                     let snap = snapshot(&account).await;
                     let _ = std::fs::remove_file(&zip);
                     let r = account.export_backup_archive(&zip).await;
